@@ -203,8 +203,49 @@ class Decoder:
         out = []
         env = dict(env0 or {})
 
-        def block(stmts, env, loops):
+        def helper_of(call, cur):
+            """the writer's own method a call dispatches to: self._m(...) or super(...)._m(...) (next in the MRO after `cur`)"""
+            fn = call.func
+            if not isinstance(fn, ast.Attribute):
+                return None
+            if dotted(fn.value) == "self" and fn.attr.startswith("_"):
+                return self.prog.lookup(self.cls, fn.attr)
+            if isinstance(fn.value, ast.Call) and dotted(fn.value.func) == "super" and cur is not None and cur.cls is not None:
+                return self.prog.lookup(self.cls, fn.attr, after=cur.cls)
+            return None
+
+        def call_helper(g, c, env, loops):
+            """run the helper's writes with its parameters bound; returns the value it returns (or None)"""
+            params = [a.arg for a in g.node.args.args][1:]
+            e3 = {}
+            for p, a in zip(params, c.args):
+                if isinstance(a, ast.Name) and a.id in env:
+                    e3[p] = env[a.id]
+                else:
+                    try:
+                        e3[p] = self.P(a, env)
+                    except NotDecoded:
+                        e3[p] = ("opaque", ast.unparse(a))
+            gb = [s for s in g.node.body if not (isinstance(s, ast.Expr) and isinstance(s.value, ast.Constant))]
+            return block(gb, e3, loops, g)
+
+        def block(stmts, env, loops, cur=None):
+            cur = cur if cur is not None else f
             for st in stmts:
+                if isinstance(st, ast.Return):
+                    if st.value is None:
+                        return None
+                    try:
+                        return self.value(st.value, env)
+                    except NotDecoded:
+                        return ("opaque", ast.unparse(st.value))
+                if isinstance(st, ast.Assign) and len(st.targets) == 1 and isinstance(st.targets[0], ast.Name) \
+                        and isinstance(st.value, ast.Call) and helper_of(st.value, cur) is not None \
+                        and any(isinstance(x, ast.Call) and (dotted(x.func) or "").startswith("worksheet.") for x in ast.walk(helper_of(st.value, cur).node)):
+                    # a helper that writes and hands a value back (`offset = super()._write_series_table(...)`)
+                    rv_ = call_helper(helper_of(st.value, cur), st.value, env, loops)
+                    env[st.targets[0].id] = rv_ if rv_ is not None else ("opaque", ast.unparse(st.value))
+                    continue
                 if isinstance(st, ast.Assign) and len(st.targets) == 1 and isinstance(st.targets[0], ast.Name):
                     try:
                         env[st.targets[0].id] = self.value(st.value, env)
@@ -269,7 +310,7 @@ class Decoder:
                                 def visit_Name(self_, n_):
                                     return ast.copy_location(ast.Name(id="series", ctx=n_.ctx), n_) if n_.id == sv_.id else n_
                             body_ = [_Ren().visit(_copy.deepcopy(b_)) for b_ in body_]
-                    block(body_, e2, loops + (lp[0],))
+                    block(body_, e2, loops + (lp[0],), cur)
                 elif isinstance(st, ast.Expr) and isinstance(st.value, ast.Call):
                     c = st.value
                     d = dotted(c.func) or ""
@@ -279,22 +320,10 @@ class Decoder:
                         dv = env.get(data.id) if isinstance(data, ast.Name) else None
                         dsrc = dv[1] if isinstance(dv, tuple) and dv[0] == "data" else ast.unparse(data)
                         out.append(("column" if d.endswith("write_column") else "cell", r0, c0, dsrc, loops))
+                    elif helper_of(c, cur) is not None:
+                        call_helper(helper_of(c, cur), c, env, loops)
                     elif d.startswith("self._") and isinstance(c.func, ast.Attribute):
-                        g = self.prog.lookup(self.cls, c.func.attr)
-                        if g is None:
-                            raise NotDecoded("helper %s" % d)
-                        params = [a.arg for a in g.node.args.args][1:]
-                        e3 = {}
-                        for p, a in zip(params, c.args):
-                            if isinstance(a, ast.Name) and a.id in env:
-                                e3[p] = env[a.id]
-                            else:
-                                try:
-                                    e3[p] = self.P(a, env)
-                                except NotDecoded:
-                                    e3[p] = ("opaque", ast.unparse(a))
-                        gb = [s for s in g.node.body if not (isinstance(s, ast.Expr) and isinstance(s.value, ast.Constant))]
-                        block(gb, e3, loops)
+                        raise NotDecoded("helper %s" % d)
                     elif d in ("worksheet.set_column",):
                         continue
                     elif d.startswith("workbook."):
